@@ -20,7 +20,8 @@ PROP = dict(
           'value, width selector)'),
     quick=dict(configs=['asan', 'rel', 'dbg'], cases=3000000, maxlen=96),
     thorough=dict(configs=['asan', 'rel', 'dbg'], cases=60000000, maxlen=96,
-                  fuzz_s=60, setmax=1 << 23),
+                  fuzz_s=60, setmax=1 << 23,
+                  extra_sweeps=[dict(name='u32', parts=16, configs=['rel'])]),
     required_classes=['signed', 'tagged.len9', 'splitFull16.len9',
                       'chained.len9', 'externalBE.PutFixedWidthQuick_',
                       'split.ReversedPutReversed_'],
